@@ -41,7 +41,9 @@ impl SemanticContextInstruction for Ins {}
 /// instruction, return a register result of the type chosen for this leaf.
 #[derive(Debug, Clone, PartialEq, Serialize, Deserialize)]
 pub struct Ext {
-    pub ty: Type,
+    /// the leaf's type as written in the source (the semantic type is computed when evaluated)
+    #[serde(borrow)]
+    pub ty: ast::Type<'static>,
     pub tag: u64,
 }
 impl ExtendedExpression<Ins> for Ext {
@@ -57,7 +59,7 @@ impl ExtendedExpression<Ins> for Ext {
             reg,
         });
         ExpressionResult {
-            expr_type: self.ty.clone(),
+            expr_type: self.ty.clone().into(),
             expr_value: ExpressionResultValue::Register(reg),
         }
     }
@@ -229,7 +231,7 @@ fn expr_val(s: &Sx) -> ast::ExpressionValue<'static, Ins, Ext> {
         }),
         "sub" => V::Expression(Box::new(expr(&s.args()[0]))),
         "ext" => V::ExtendedExpression(Box::new(Ext {
-            ty: ty(&s.args()[0]).into(),
+            ty: ty(&s.args()[0]),
             tag: s.args()[1].num(),
         })),
         h => panic!("expr value {h}"),
@@ -943,8 +945,33 @@ fn codec_check(prog: &Main) -> Result<(), String> {
     s1.run(prog);
     let mut s2: State<Ext, Ins> = State::new();
     s2.run(&prog2);
-    if dump(&s1, prog) != dump(&s2, &prog2) {
-        return Err("analysis of the decoded ast differs".into());
+    // error texts that are debug dumps are not part of the property (kinds, identifiers, locations)
+    let blank = |st: &mut State<Ext, Ins>| {
+        for e in &mut st.errors {
+            if matches!(
+                e.kind,
+                StateErrorKind::ConditionIsEmpty
+                    | StateErrorKind::ForbiddenCodeAfterReturnDeprecated
+                    | StateErrorKind::ForbiddenCodeAfterBreakDeprecated
+                    | StateErrorKind::ForbiddenCodeAfterContinueDeprecated
+            ) {
+                e.value = String::new();
+            }
+        }
+    };
+    let errors1 = s1.errors.clone();
+    blank(&mut s1);
+    blank(&mut s2);
+    let (d1, d2) = (dump(&s1, prog), dump(&s2, &prog2));
+    s1.errors = errors1;
+    if d1 != d2 {
+        let k = d1.bytes().zip(d2.bytes()).take_while(|(a, b)| a == b).count();
+        let lo = k.saturating_sub(60);
+        return Err(format!(
+            "analysis of the decoded ast differs at byte {k}: {} | {}",
+            d1.get(lo..(k + 60).min(d1.len())).unwrap_or("?"),
+            d2.get(lo..(k + 60).min(d2.len())).unwrap_or("?")
+        ));
     }
     // every produced stack
     let mut stacks: Vec<SemanticStack<Ins>> = vec![s1.global.context.clone()];
@@ -983,9 +1010,26 @@ fn codec_check(prog: &Main) -> Result<(), String> {
     Ok(())
 }
 
-/// JSON tree of the AST, for the tree-level comparison with the Coq codec model.
+/// JSON trees (serde_json) of the AST, the produced stacks and the error list, for the
+/// tree-level comparison with the Coq codec model.
 fn codec_tree(prog: &Main) -> String {
-    serde_json::to_string(prog).unwrap_or_else(|e| format!("ERROR {e}"))
+    let ast = serde_json::to_string(prog).unwrap_or_else(|e| format!("\"ERROR {e}\""));
+    let r = std::panic::catch_unwind(std::panic::AssertUnwindSafe(|| {
+        let mut state: State<Ext, Ins> = State::new();
+        state.run(prog);
+        let errors = serde_json::to_string(&state.errors).expect("errors json");
+        let gstack = serde_json::to_string(&state.global.context).expect("gstack json");
+        let stacks: Vec<String> = state
+            .context
+            .iter()
+            .map(|b| serde_json::to_string(&b.borrow().get_context()).expect("stack json"))
+            .collect();
+        format!(
+            "{{\"ast\":{ast},\"errors\":{errors},\"gstack\":{gstack},\"stacks\":[{}]}}",
+            stacks.join(",")
+        )
+    }));
+    r.unwrap_or_else(|_| format!("{{\"ast\":{ast},\"panic\":true}}"))
 }
 
 fn work(mode: &str, input: &str, output: &str) {
